@@ -439,7 +439,7 @@ func runBE(e *env) {
 	switch r.sc.Mode {
 	case "seq", "conc":
 		for i := range r.sc.Root {
-			time.Sleep(1)
+			r.rootSleep(1)
 			r.exec(-1, i, &r.sc.Root[i])
 		}
 
